@@ -1,0 +1,11 @@
+//go:build verif
+
+// Contracts for the deductive verifier under /verif (comment-only file).
+package errors
+
+//@ func calcBounds props C07
+//@   requires 0 <= size && size <= 4611686018427387904
+//@   ensures 0 <= lbound && lbound <= rbound && rbound <= size
+//@   ensures (0 <= pos && pos < size) ==> rbound - lbound <= 33
+//@   ensures lwidth >= 0 && rwidth >= 0 && lwidth + rwidth <= 32
+//@   ensures (0 <= pos && pos < size) ==> (lbound <= pos && pos < rbound)
